@@ -264,7 +264,10 @@ def surface_pressure_contract(en: E.Engine):
   VM.ensure_cases(en, 'the linear profile of (orography * g - geopotential) over the levels, evaluated at that formula, is zero: geopotential meets orography',
                   [n >= 2, u >= 1, u <= n - 1], [('segment u', [u >= 1])], mono, prof_at(lin) == z3.RealVal(0), rules=[], timeout_ms=30000)
   # (3) hence at the returned pressure (substitution of equals)
-  en.ensure('at the returned pressure the profile is zero (from (1) and (2))', z3.Implies(z3.And(ps == lin, prof_at(lin) == 0), prof_at(ps) == 0))
+  # pure congruence: with the profile abstracted to an uninterpreted function of the pressure the step is EUF (no non-linear reasoning, hence stable);
+  # validity for every function implies validity for the linear profile
+  PROF = z3.Function('profile_of_pressure', z3.RealSort(), z3.RealSort())
+  en.ensure('at the returned pressure the profile is zero (from (1) and (2), by substitution of equals)', z3.Implies(z3.And(ps == lin, PROF(lin) == 0), PROF(ps) == 0))
   en.ensure('when the surface lies within the level range the surface pressure lies between the two bracketing levels',
             z3.Implies(z3.And(rh(0) <= 0, 0 <= rh(n - 1)), z3.And(ps >= lev.get(u - 1), ps <= lev.get(u))))
 
